@@ -68,6 +68,30 @@ theorem coerce_value_no_crash (c : PyConv) (D : Field → R) (tm : TypeMap)
   let ⟨cv, h, _⟩ := coerce_validate_value c D tm hD hO v t []
   ⟨cv, h⟩
 
+/-- C15-1c (wrong containers). At an input-object position every non-null value that is not a
+`dict` — a Mapping that is not a dict (MappingProxyType, ChainMap, UserDict …), a list, tuple,
+set, generator, string, number or other object — is rejected by *both* functions:
+`coerce_input_value` returns `Undefined` and `validate_input_value` reports exactly one error at
+that position. Holds for every type map (OneOf included). -/
+theorem non_dict_rejected_by_both (c : PyConv) (D : Field → R) (tm : TypeMap) (v : PyVal) (n : List Nat)
+    (fields : List Field) (oneOf : Bool) (path : Path)
+    (hf : tm.find n = some (.inputObject fields oneOf)) (hn : v.isNullish = false) (hd : v.asDict = none) :
+    coerceValue c D tm v (.named n) = .ok .undefined ∧ validateValue c tm v (.named n) path = [path] :=
+  ⟨coerceValue_notobj c D tm (by simp [hn]) hf hd, validateValue_notobj c tm (by simp [hn]) hf hd⟩
+
+/-- … in particular for the non-dict mappings and the non-list iterables of the value zoo; and at
+a list position a Mapping (like a str) is not iterated but taken as a list of one. -/
+theorem wrong_containers_not_dict (kvs : List (List Nat × PyVal)) (xs : List PyVal) (s : List Nat) (o : PyObj) :
+    (PyVal.mapping kvs).asDict = none ∧ (PyVal.iter xs).asDict = none ∧ (PyVal.list xs).asDict = none ∧
+    (PyVal.tuple xs).asDict = none ∧ (PyVal.str s).asDict = none ∧ (PyVal.other o).asDict = none ∧
+    (PyVal.mapping kvs).iterItems = none ∧ (PyVal.dict kvs).iterItems = none ∧ (PyVal.str s).iterItems = none ∧
+    (PyVal.iter xs).iterItems = some xs ∧ (PyVal.tuple xs).iterItems = some xs :=
+  ⟨rfl, rfl, rfl, rfl, rfl, rfl, rfl, rfl, rfl, rfl, rfl⟩
+
+-- non-vacuity: `MappingProxyType({"x": 1})` at `P` (an input object of `exTm` below)
+example : (PyVal.mapping [([120], .int 1)]).isNullish = false ∧ (PyVal.mapping [([120], .int 1)]).asDict = none :=
+  ⟨rfl, rfl⟩
+
 /-- The error paths do not matter for agreement: validation is silent at one path prefix iff it
 is silent at any other. -/
 theorem validate_silent_path_independent (c : PyConv) (D : Field → R) (tm : TypeMap)
